@@ -733,9 +733,22 @@ fn dense_write(ng: &Nodegraph, wr: &str, dir: &std::path::Path) -> Result<(Vec<u
     Ok((std::fs::read(&p).unwrap(), false))
 }
 
+/// The name a byte string gets on disk: what a file holds is decided by its first bytes (compression
+/// sniffing), never by its name, so the name varies independently of the content — gzip streams under
+/// names without `.gz` (khmer / SBT internal nodes), plain files under `.gz` names, no extension at all.
+fn disk_name(b: &[u8]) -> &'static str {
+    const NAMES: [&str; 8] = ["g.ng", "g.ng.gz", "internal.3", "filter.ng", "node.gz", "GRAPH.GZ", "g.gz.bak", "noext"];
+    let mut h: u64 = 0xcbf2_9ce4_8422_2325 ^ b.len() as u64;
+    for x in b.iter().take(96).chain(b.iter().rev().take(32)) {
+        h = (h ^ *x as u64).wrapping_mul(0x0000_0100_0000_01b3);
+    }
+    NAMES[((h >> 29) % 8) as usize]
+}
+
 /// load `b` through the named loader and answer with `answer(loaded graph)`
 fn dense_load(b: &[u8], gz: bool, loader: &str, dir: &std::path::Path, answer: &dyn Fn(&Nodegraph) -> String) -> String {
-    let p = dir.join(if gz { "g.ng.gz" } else { "g.ng" });
+    let _ = gz;
+    let p = dir.join(disk_name(b));
     match loader {
         "ffi" | "ffipath" => unsafe {
             sourmash_err_clear();
@@ -903,7 +916,7 @@ fn step(st: &mut Option<Nodegraph>, ws: &[&str]) -> String {
                         return "badmagic".into();
                     }
                     let dir = tempfile::tempdir().unwrap();
-                    let p = dir.path().join(if level > 0 { "g.ng.gz" } else { "g.ng" });
+                    let p = dir.path().join(disk_name(&b));
                     let answer = |g2: &Nodegraph| format!("{} same={}", sparse_digest(g2), g2 == ng && g2.tablesizes() == ng.tablesizes());
                     match ws[1] {
                         "ffi" | "ffipath" => {
@@ -954,7 +967,7 @@ fn step(st: &mut Option<Nodegraph>, ws: &[&str]) -> String {
                             Ok(b) => b,
                             Err(e) => return e,
                         };
-                        let p = dir.path().join("g.ng.gz");
+                        let p = dir.path().join(disk_name(&b));
                         std::fs::write(&p, &b).unwrap();
                         let c = CString::new(p.to_str().unwrap()).unwrap();
                         sourmash_err_clear();
